@@ -257,11 +257,12 @@ def tag(v):
     return {'other': type(v).__name__}
 
 
-def deep(v, lib=None, depth=0):
-    """any value -> canonical JSON-able form (cycles cut; ints as hex text: decimal text above 4300 digits is refused by
-    CPython itself, also inside json.dumps)"""
-    if depth > 30:
-        return '<cycle>'
+def deep(v, lib=None, depth=0, path=()):
+    """any value -> canonical JSON-able form (a container met again on the current path is cut: a self-containing array
+    that was extended with itself branches; ints as hex text: decimal text above 4300 digits is refused by CPython itself,
+    also inside json.dumps)"""
+    if depth > 40:
+        return '<deep>'
     if v is None or isinstance(v, (bool, str)):
         return v
     if isinstance(v, int):
@@ -270,10 +271,13 @@ def deep(v, lib=None, depth=0):
         return {'f': float_wire(v)}
     if isinstance(v, datetime.date):
         return {'d': repr(v)}
-    if isinstance(v, list):
-        return [deep(x, lib, depth + 1) for x in v]
-    if isinstance(v, dict):
-        return {'o': [[str(k), deep(v[k], lib, depth + 1)] for k in sorted(v, key=str)]}
+    if isinstance(v, (list, dict)):
+        if id(v) in path:
+            return '<cycle>'
+        path = path + (id(v),)
+        if isinstance(v, list):
+            return [deep(x, lib, depth + 1, path) for x in v]
+        return {'o': [[str(k), deep(v[k], lib, depth + 1, path)] for k in sorted(v, key=str)]}
     if callable(v):
         if lib is not None:
             for name, fn in lib.items():
@@ -468,6 +472,19 @@ def binop_triples(ctx, n_random, exhaustive):
                 else:
                     sa, sb = rng.choice(OTHER_SPECS), rng.choice(OTHER_SPECS)
                 triples.append((op, sa, sb))
+    # directed: the operands behind F17 / F18 / F25 with every partner that reaches value_string / value_compare / timedelta
+    if not exhaustive:
+        hard = [['cyclic_list'], ['cyclic_dict'], ['nest', 5000], ['nest', 40], ['list', [['float', 'inf']]], ['list', [['float', 'nan']]],
+                ['list', [I(10 ** 4300)]], ['list', [DT('naive', (9999, 12, 31))]], ['list', [DT('aware', (9999, 12, 31, 23), -300)]],
+                ['dict', [['a', ['float', 'inf']]]], DT('naive', (9999, 12, 31, 23, 59, 59, 999000)), DT('date', (9999, 12, 31)),
+                DT('naive', (1, 1, 1)), DT('aware', (9999, 12, 31, 23), -300), DT('aware', (1, 1, 1, 1), 600), I(10 ** 4300), I(-(10 ** 5000)),
+                ['float', 'nan'], ['float', 'inf']]
+        partners = [S(''), S('x'), DT('naive', (2020, 1, 1)), ['float', 'nan'], I(1), Fl(1e300)]
+        for op in ['+', '-', '==', '<', '>=']:
+            for sa in hard:
+                for sb in partners + [sa]:
+                    triples.append((op, sa, sb))
+                    triples.append((op, sb, sa))
     # random numeric operands (rounding of + - * / % is compared EXACTLY)
     for _ in range(n_random // 2):
         op = rng.choice(['+', '-', '*', '/', '%', '**', '<', '=='])
@@ -870,7 +887,8 @@ def stream_expr(ctx, mods, n):
                 else:
                     got = {'error': out[1], 'log': canon_log(log)}
                 ctx.compare('expr-adversarial', case, got, want)
-        st.case([text, g], nontrivial=any_nontrivial, tags=['expr'])
+        st.case([text, g], nontrivial=any_nontrivial, tags=['expr', 'model-error' if 'error' in resps[2 * ix] else 'model-value',
+                                                            'swallowed' if '<failure>' in (resps[2 * ix].get('log') or []) else 'clean'])
 
 
 # ---------------------------------------------------------------------------------------------------------------------
@@ -984,7 +1002,7 @@ def stream_text(ctx, mods, n, name='exec-adversarial-text'):
         if ends_rt:
             body.insert(rng.randint(0, len(body)), rng.choice(RT_LINES))
         text = PRELUDE + 'r0 = five\n' + '\n'.join(body) + "\nsystemLog('END')\nreturn 'done'\n"
-        text_case(ctx, mods, st, name, text, ends_rt, [ln.split('(')[0][:24] for ln in body[:1]])
+        text_case(ctx, mods, st, name, text, ends_rt, ['single-template' if len(body) == 1 else 'combined'])
     # expression aliases through evaluate_expression, builtins on / off
     for src in ALIAS_EXPRS:
         for builtins in (True, False):
@@ -1073,7 +1091,7 @@ def streams(ctx):
     if not ctx.quick:
         ctx.streams['binop-host'].exhaustive = False      # the pool is enumerated completely, the value space is not
     stream_wrapper(ctx, mods, {'single': ctx.scale(6, len(ARG_POOL)), 'multi': ctx.scale(4, 60)})
-    stream_exec(ctx, mods, ctx.scale(250, 3000))
+    stream_exec(ctx, mods, ctx.scale(250, 4000))
     stream_expr(ctx, mods, ctx.scale(300, 6000))
     stream_text(ctx, mods, ctx.scale(len(ADV_LINES) + 150, len(ADV_LINES) + 6000))
 
